@@ -116,6 +116,17 @@ const fn short_div(dividend: u32, dividend_bits: u32, divisor: u32, divisor_bits
     quotient
 }
 
+/// Verification hook: forwards to the private [`short_div`].
+#[cfg(crypto_bigint_verif)]
+pub(crate) const fn verif_short_div(
+    dividend: u32,
+    dividend_bits: u32,
+    divisor: u32,
+    divisor_bits: u32,
+) -> u32 {
+    short_div(dividend, dividend_bits, divisor, divisor_bits)
+}
+
 /// Calculate the quotient and the remainder of the division of a wide word
 /// (supplied as high and low words) by `d`, with a precalculated reciprocal `v`.
 #[inline(always)]
@@ -236,6 +247,14 @@ impl Reciprocal {
     /// Get the shift value
     pub const fn shift(&self) -> u32 {
         self.shift
+    }
+}
+
+#[cfg(crypto_bigint_verif)]
+impl Reciprocal {
+    /// Verification hook: the private fields `(divisor_normalized, shift, reciprocal)`.
+    pub const fn verif_fields(&self) -> (Word, u32, Word) {
+        (self.divisor_normalized, self.shift, self.reciprocal)
     }
 }
 
